@@ -528,8 +528,14 @@ var zzPostfixes = []string{"", "(x)", "[x]", "[x:y]", ".m"}
 // zzPrecedence: n binary operators between decorated operands; the written
 // expression and its fully parenthesised reference spelling must parse to the
 // same tree (modulo ParenExpr and positions).
+// zzOperandProfile: what the operands of the precedence harnesses are spelled as
+// (0 identifiers; 1 integer literals; 2 an identifier followed by integer
+// literals; 3 a string, a float, an integer, an identifier) - a grammar action
+// may treat constant operands differently from names.
+var zzOperandProfile int
+
 func zzPrecedence(n int, decorate bool) {
-	names := []string{"a", "b", "c", "d"}
+	names := [][]string{{"a", "b", "c", "d"}, {"1", "2", "3", "4"}, {"x", "1", "2", "3"}, {"\"s\"", "1.5", "2", "y"}}[zzOperandProfile]
 	operands := make([]string, n+1)
 	shown := make([]string, n+1)
 	for i := range operands {
@@ -572,6 +578,13 @@ func zzPrecedence(n int, decorate bool) {
 func ZZ_C03_precedence_2()           { zzPrecedence(2, false) }
 func ZZ_C03_precedence_2_decorated() { zzPrecedence(1, true) }
 func ZZ_C03_precedence_3()           { zzPrecedence(3, false) }
+
+// ZZ_C03_precedence_2_literals: the same pairs with literal operands.
+func ZZ_C03_precedence_2_literals() {
+	zzOperandProfile = 1 + zz.Choose(3)
+	defer func() { zzOperandProfile = 0 }()
+	zzPrecedence(2, false)
+}
 
 // ZZ_C03_ternary: ?: is right-associative and looser than every binary operator.
 func ZZ_C03_ternary() {
